@@ -182,6 +182,35 @@ func (e *engine) runC10() {
 		model = e.m.Query(op)
 		e.rep.Compare(op, model, impl, "matches."+model[3:], "codec.matches", mon)
 	}
+	// alias IDs: non-canonical encodings that still decode to the same key. Such an ID was NOT
+	// derived from the key, so it must not match it (one key must not own many IDs).
+	for i := 0; i < len(ids) && i < 20*e.a.Scale; i++ {
+		k := pubs[i]
+		inner := map[string][]byte{
+			"fields-swapped":  append(append([]byte{0x12, 0x20}, k...), 0x08, 0x01),
+			"unknown-field":   append(append([]byte{0x08, 0x01, 0x12, 0x20}, k...), 0x18, 0x00),
+			"duplicate-field": append([]byte{0x08, 0x01, 0x08, 0x01, 0x12, 0x20}, k...),
+			"canonical":       append([]byte{0x08, 0x01, 0x12, 0x20}, k...),
+		}
+		for name, in := range inner {
+			alias := append([]byte{0x00, byte(len(in))}, in...)
+			if name == "canonical" {
+				alias = append([]byte{0x00, 0x80 | byte(len(in)), 0x00}, in...) // non-minimal length varint
+				name = "nonminimal-len"
+			}
+			pk, _ := crypto.UnmarshalEd25519PublicKey(k)
+			got := peer.ID(alias).MatchesPublicKey(pk)
+			op := fmt.Sprintf("codec.matches id=%s pk=%s", lib.Hex(alias), lib.Hex(k))
+			impl := "ok 0"
+			mon := ""
+			if got {
+				impl = "ok 1"
+				mon = "an ID that was not derived from the key (non-canonical encoding: " + name + ") matches the key"
+			}
+			model := e.m.Query(op)
+			e.rep.Compare(op, model, impl, "matches."+model[3:], "codec.matches:alias-"+name, mon)
+		}
+	}
 	// malformed multihashes
 	nb := 240 * e.a.Scale
 	for i := 0; i < nb; i++ {
